@@ -9,7 +9,7 @@ use std::iter::FromIterator;
 use crate::common::pakhi_error::PakhiErr::{RuntimeError, TypeError};
 
 enum Index {
-    List(usize),
+    List(f64),
     NamelessRecord(String),
 }
 
@@ -422,229 +422,54 @@ impl<'a, T: 'a + IO> Interpreter<'a, T> {
                                   var_found_at_env_index: i32,
                                   init_value: DataType) -> Result<(), PakhiErr>
     {
-        // effective_index is index of deepest nested array, to which init_val will be assigned
-        let effective_index = self.interpret_expr(assign_stmt.indexes.last().unwrap().clone())?;
         let evaluated_indexes: Vec<Index> = self.evaluate_all_indexes(assign_stmt.indexes.clone())?;
+        let (line, file_name) = self.extract_err_meta_stmt(self.current)?;
 
-        let var = self.get_var_from_env(var_key.as_str(), var_found_at_env_index as usize);
+        // container is the list or record in which next index selects an element, lists and
+        // records can be nested in each other in any order. All indexes except last select
+        // next container, last index selects the element init_value is assigned to
+        let mut container = match self.get_var_from_env(var_key.as_str(), var_found_at_env_index as usize) {
+            Some(data) => data,
+            None => DataType::Nil,
+        };
+        let last_index_i = evaluated_indexes.len() - 1;
 
-        match var {
-            Some(DataType::List(i)) => {
-                if assign_stmt.indexes.len() == 1 {
-                    // single dimensional list
-                    // changing list element at only one level deep
-                    self.list_single_dim_assign(i, effective_index, init_value)?;
-                } else {
-                    // multidimensional array so need to traverse nested list ore record
-                    self.list_multi_dim_assign(i, evaluated_indexes, init_value.clone())?;
-                }
-            },
-            Some(DataType::NamelessRecord(record_ref)) => {
-                if assign_stmt.indexes.len() == 1 {
-                    // single dimensional list
-                    // changing list element at only one level deep
-                    self.record_single_dim_assign(record_ref, effective_index, init_value)?;
-                } else {
-                    // multidimensional array so need to traverse nested list ore record
-                    self.record_multi_dim_assign(record_ref, evaluated_indexes, init_value.clone())?;
-                }
-            },
-            _ => {
-                let (line, file_name) = self.extract_err_meta_stmt(self.current)?;
-                return Err(TypeError(line, file_name, "Datatype doesn't support index assignment".to_string()));
-            },
-        }
-        Ok(())
-    }
-
-    fn list_single_dim_assign(&mut self,
-                              list_ref: usize,
-                              index: DataType,
-                              init_value: DataType) -> Result<(), PakhiErr>
-    {
-        match index {
-            DataType::List(j) => {
-                let a = self.lists[j].clone();
-                match a[0].clone() {
-                    DataType::Num(n) => {
-                        let list = self.lists.get_mut(list_ref).unwrap();
-                        list[n as usize] = init_value
-                    },
-                    _ => {
-                        let (line, file_name) = self.extract_err_meta_stmt(self.current)?;
-                        return Err(RuntimeError(line, file_name,
-                                         "List must be indexed with number type".to_string()));
-                    },
-                }
-            },
-            _ => {
-                let (line, file_name) = self.extract_err_meta_stmt(self.current)?;
-                return Err(RuntimeError(line, file_name,
-                                        "Unexpected error while assigning to a index".to_string()));
-            },
-        }
-        Ok(())
-    }
-
-    fn record_single_dim_assign(&mut self,
-                                record_ref: usize,
-                                index: DataType,
-                                init_value: DataType) -> Result<(), PakhiErr>
-    {
-        match index {
-            DataType::List(j) => {
-                let a = self.lists[j].clone();
-                match a[0].clone() {
-                    DataType::String(key) => {
-                        let record = self.nameless_records
-                                                                .get_mut(record_ref).unwrap();
-                        record.insert(key, init_value);
-                    },
-                    _ => {
-                        let (line, file_name) = self.extract_err_meta_stmt(self.current)?;
-                        return Err(RuntimeError(line, file_name,
-                                                "Records must be indexed by a string type".to_string()));
-                    },
-                }
-            },
-            _ => {
-                let (line, file_name) = self.extract_err_meta_stmt(self.current)?;
-                return Err(RuntimeError(line, file_name,
-                                        "Unexpected error while assigning to a index".to_string()));
-            },
-        }
-        Ok(())
-    }
-
-    fn list_multi_dim_assign(&mut self,
-                             list_reference: usize,
-                             evaluated_indexes: Vec<Index>,
-                             init_value: DataType) -> Result<(), PakhiErr>
-    {
-        let list = self.lists.get_mut(list_reference).unwrap();
-
-        match evaluated_indexes.get(0).unwrap() {
-            Index::List(list_ref) => {
-                let mut assignee: DataType = list.get(list_ref.clone()).unwrap().clone();
-
-                for i in 1..evaluated_indexes.len() {
-                    if i == evaluated_indexes.len() - 1 {
-                        match assignee {
-                            DataType::List(arr_i) => {
-                                //let a = self.arrays.get_mut(arr_i).unwrap();
-                                let index = evaluated_indexes.get(i).unwrap();
-                                match index {
-                                    Index::List(i) => {
-                                        self.lists[arr_i][i.clone()] = init_value.clone();
-                                        break;
-                                    },
-                                    _ => {
-                                        let (line, file_name) = self.extract_err_meta_stmt(self.current)?;
-                                        return Err(RuntimeError(line, file_name, "Error on assignment to index".to_string()));
-                                    }
-                                }
-                            }
-                            _ => {
-                                let (line, file_name) = self.extract_err_meta_stmt(self.current)?;
-                                return Err(RuntimeError(line, file_name, "Cannot assign at index if datatype is not list".to_string()));
-                            },
-                        }
-                    } else {
-                        match assignee {
-                            DataType::List(arr_i) => {
-                                let a = self.lists.get_mut(arr_i).unwrap();
-                                let index = evaluated_indexes.get(i).unwrap();
-                                match index {
-                                    Index::List(i) => {
-                                        assignee = a.get(i.clone()).unwrap().clone();
-                                    },
-                                    _ => {
-                                        let (line, file_name) = self.extract_err_meta_stmt(self.current)?;
-                                        return Err(RuntimeError(line, file_name, "Error on assignment to index".to_string()));
-                                    },
-                                }
-                            },
-                            _ => {
-                                let (line, file_name) = self.extract_err_meta_stmt(self.current)?;
-                                return Err(RuntimeError(line, file_name, "Cannot index if datatype not list".to_string()));
-                            },
-                        }
+        for (i, index) in evaluated_indexes.into_iter().enumerate() {
+            match (container, index) {
+                (DataType::List(list_ref), Index::List(n)) => {
+                    let position = match list_position(n, self.lists[list_ref].len()) {
+                        Some(position) => position,
+                        None => return Err(RuntimeError(line, file_name, "List index out of range".to_string())),
+                    };
+                    if i == last_index_i {
+                        self.lists[list_ref][position] = init_value;
+                        return Ok(());
                     }
-                }
-            },
-            _ => {
-                let (line, file_name) = self.extract_err_meta_stmt(self.current)?;
-                return Err(RuntimeError(line, file_name, "Only list and record datatype can be indexed".to_string()));
-            },
-        }
-
-        Ok(())
-    }
-
-    fn record_multi_dim_assign(&mut self,
-                               record_reference: usize,
-                               evaluated_indexes: Vec<Index>,
-                               init_value: DataType) -> Result<(), PakhiErr>
-    {
-        let record = self.nameless_records.get_mut(record_reference).unwrap();
-
-        match evaluated_indexes.get(0).unwrap() {
-            Index::NamelessRecord(key) => {
-                let mut assignee: DataType = record.get(key).unwrap().clone();
-
-                for i in 1..evaluated_indexes.len() {
-                    if i == evaluated_indexes.len() - 1 {
-                        match assignee {
-                            DataType::NamelessRecord(record_i) => {
-                                let index = evaluated_indexes.get(i).unwrap();
-                                match index {
-                                    Index::NamelessRecord(k) => {
-                                        self.nameless_records[record_i].insert(k.clone(), init_value);
-                                        break;
-                                    }
-                                    _ => {
-                                        let (line, file_name) = self.extract_err_meta_stmt(self.current)?;
-                                        return Err(RuntimeError(line, file_name,
-                                                     "Error on assignment to index".to_string()));
-                                    }
-                                }
-                            }
-                            _ => {
-                                let (line, file_name) = self.extract_err_meta_stmt(self.current)?;
-                                return Err(RuntimeError(line, file_name,
-                                   "Cannot assign at index if datatype is not record".to_string()));
-                            },
-                        }
-                    } else {
-                        match assignee {
-                            DataType::NamelessRecord(record_i) => {
-                                let r = self.nameless_records.get_mut(record_i).unwrap();
-                                let index = evaluated_indexes.get(i).unwrap();
-                                match index {
-                                    Index::NamelessRecord(k) => {
-                                        assignee = r.get(k).unwrap().clone();
-                                    },
-                                    _ => {
-                                        let (line, file_name) = self.extract_err_meta_stmt(self.current)?;
-                                        return Err(RuntimeError(line, file_name,
-                                     "Cannot assign at index if datatype is not record".to_string()));
-                                    },
-                                }
-                            }
-                            _ => {
-                                let (line, file_name) = self.extract_err_meta_stmt(self.current)?;
-                                return Err(RuntimeError(line, file_name, "Cannot assign at index if datatype is not record".to_string()));
-                            },
-                        }
+                    container = self.lists[list_ref][position].clone();
+                },
+                (DataType::NamelessRecord(record_ref), Index::NamelessRecord(key)) => {
+                    if i == last_index_i {
+                        self.nameless_records[record_ref].insert(key, init_value);
+                        return Ok(());
                     }
-                }
+                    container = match self.nameless_records[record_ref].get(&key) {
+                        Some(data) => data.clone(),
+                        None => return Err(RuntimeError(line, file_name, format!("Record doesn't have key \"{}\"", key))),
+                    };
+                },
+                (DataType::List(_), _) => {
+                    return Err(RuntimeError(line, file_name,
+                                            "List must be indexed with number type".to_string()));
+                },
+                (DataType::NamelessRecord(_), _) => {
+                    return Err(RuntimeError(line, file_name,
+                                            "Records must be indexed by a string type".to_string()));
+                },
+                _ => {
+                    return Err(TypeError(line, file_name, "Datatype doesn't support index assignment".to_string()));
+                },
             }
-            _ => {
-                let (line, file_name) = self.extract_err_meta_stmt(self.current)?;
-                return Err(RuntimeError(line, file_name, "Only list and record datatype can be indexed".to_string()));
-            },
         }
-
         Ok(())
     }
 
@@ -675,9 +500,9 @@ impl<'a, T: 'a + IO> Interpreter<'a, T> {
             let index = self.interpret_expr(index_exprs[i].clone())?;
             match  index {
                 DataType::List(arr_i) => {
-                    match self.lists[arr_i][0].clone() {
-                        DataType::Num(i) => evaluated_index_exprs.push(Index::List(i as usize)),
-                        DataType::String(key) => evaluated_index_exprs.push(Index::NamelessRecord(key)),
+                    match self.lists[arr_i].get(0).cloned() {
+                        Some(DataType::Num(i)) => evaluated_index_exprs.push(Index::List(i)),
+                        Some(DataType::String(key)) => evaluated_index_exprs.push(Index::NamelessRecord(key)),
                         _ => {
                             let (line, file_name) = self.extract_expr_err_meta(&index_exprs[i]);
                             return Err(RuntimeError(line, file_name, "Index must be of number or string type".to_string()));
